@@ -69,14 +69,15 @@ type Result struct {
 	Latitude      string
 	LatitudeAfter int
 	// Diagnostics for the monitor
-	NonMinimal     bool  // some VarInt prefix was not minimally encoded
-	Frames         int   // frames seen (including empty and rejected ones)
-	EmptyRunMax    int   // longest run of consecutive empty payloads
-	MaxFrameAlloc  int   // largest frame body a correct decoder has to allocate
-	MaxInflate     int   // largest claimed size a correct decoder has to allocate
-	LegitAlloc     int64 // sum of frame bodies and accepted claimed sizes: what a correct decoder may allocate
-	SawCompressed  bool
-	SawUncompInCmp bool
+	NonMinimalClaimed bool  // a claimed-size VarInt was not minimally encoded (decided all the same)
+	NonMinimal        bool  // some VarInt prefix was not minimally encoded
+	Frames            int   // frames seen (including empty and rejected ones)
+	EmptyRunMax       int   // longest run of consecutive empty payloads
+	MaxFrameAlloc     int   // largest frame body a correct decoder has to allocate
+	MaxInflate        int   // largest claimed size a correct decoder has to allocate
+	LegitAlloc        int64 // sum of frame bodies and accepted claimed sizes: what a correct decoder may allocate
+	SawCompressed     bool
+	SawUncompInCmp    bool
 }
 
 // VarInt reads a VarInt of at most max bytes. ok=false, need=true: ran out of bytes;
@@ -188,8 +189,11 @@ func Decode(stream []byte, cfg Config) Result {
 				return reject(start, "claimed-size-varint-too-long", "claimed-size VarInt longer than 5 bytes")
 			}
 			if !cmin {
-				res.NonMinimal = true
-				lat("non-minimal claimed-size VarInt")
+				// The statement's restriction to minimal encodings is about the frame's length
+				// prefix (Velocity's frame decoder reads that one with its own 3-byte routine).
+				// The claimed size is read with the ordinary VarInt reader, which takes any
+				// encoding of up to five bytes at its value; the data starts behind it.
+				res.NonMinimalClaimed = true
 			}
 			rest := body[cn:]
 			if claimed == 0 {
